@@ -351,7 +351,7 @@ PROPS = {
                 "write_dso_debug_stream under a 3 s watchdog; whole dumps of targets mapping files with hostile names (non-ASCII, spaces, ' (deleted)', `.so.1.2.3é4`, "
                 "`/SYSVab`) and files from /dev/shm watched with inotify; the whole live option matrix with crash registers unmapped / at the top of the address space. "
                 "Distinct = distinct (kind, scenario, outcome) / parsed versions. Hostile linker data also with program-header counts beyond what an ELF header can announce (65535 … 74000) over a 4 MiB readable region. Generated modules with a note segment that ends in the middle of the build-id note. A case that does not come back within 45 s ends the run (HANG <case id>) and is reported as a violation with that case as replay.",
-        "expected_tags": ["sover", "sover.some", "sover.nonascii", "dso.cyclic", "dso.rho", "dso.rho-long", "dso.tail-selfloop", "dso.mulphnum", "dso.dyn-short", "dso.linkmap-short", "dso.vaddr-underflow", "files.devshm-nonelf",
+        "expected_tags": ["sover", "sover.some", "sover.nonascii", "dso.cyclic", "dso.rho", "dso.rho-long", "dso.tail-selfloop", "dso.no-null-odd", "dso.mulphnum", "dso.dyn-short", "dso.linkmap-short", "dso.vaddr-underflow", "files.devshm-nonelf",
                           "files.sysv-name", "files.sover-name", "dump", "crash.ip.top", "crash.sp.top"],
         "extra_theorems": ["C12_total", "C06_total", "C06_walk_total", "C18_walk_cycle_diverges", "System_settled", "gatherStack_settled", "gatherThread_settled", "gatherApp_settled", "C13_layout", "System_settled_of_map", "LinkWalk_source_agrees", "LinkWalk_total"],
         "trusted_base": ["dependency code (procfs-core, goblin, nix, serde_json) is exercised, not modelled: panics inside it found by the live / fuzz runs are reported with a replay",
